@@ -70,6 +70,16 @@ Judge(c) ==
         adj |-> [k \in 1..Len(c.adj) |-> AdjOK(c.adj[k])],
         rel |-> [k \in 1..Len(c.rel) |-> RelOK(M, c.rel[k])],
         jv |-> IF M.cyclic THEN <<>> ELSE [k \in 1..Len(c.jv) |-> JvOK(M, dYspec, c.jv[k], c.vois)],
+        \* pairs of observed vectors that must be equal (C02: a product taken with a scope equals the product of the
+        \* projected argument taken without one)
+        eqs |-> IF "eqs" \in DOMAIN c THEN [k \in 1..Len(c.eqs) |-> c.eqs[k].a = c.eqs[k].b] ELSE <<>>,
+        \* partial observations (C24, driver loop): only the listed outputs must hold their converged value; the others
+        \* may be stale by design (components outside the optimisation iteration)
+        part |-> IF "part" \in DOMAIN c /\ ~M.cyclic
+                 THEN LET Yc == Converged(M)
+                      IN [k \in 1..Len(c.part) |-> \A j \in 1..Len(c.part[k].outs) :
+                                                       c.part[k].out[c.part[k].outs[j]] = Yc[c.part[k].outs[j]]]
+                 ELSE <<>>,
         \* the specification's source positions of every input (used by the harness to judge intermediate,
         \* non-rational states of a run in floating point)
         pos |-> [i \in 1..Len(M.ins) |-> ConnPos(M, i)]]
